@@ -43,11 +43,13 @@ def run(ctx):
     ctx.note("matrix_cells", len(cells))
     ctx.note("distinct_concrete_requests", len(reqs))
     rnd = random.Random(ctx.seed)
+    sampled = False
     if ctx.quick:
         points = [u for u in reqs if len(u["pos"]) == 1]
         ranges = [u for u in reqs if len(u["pos"]) == 2]
         if len(ranges) > 1500:
             ranges = rnd.sample(ranges, 1500)
+            sampled = True
         reqs = points + ranges
         reqs.sort(key=lambda u: (u["doc"], u["req"], json.dumps(u["pos"])))
     vlib.build(["vh-ls"])
@@ -119,7 +121,7 @@ def run(ctx):
     for u in rnd.sample(reqs, min(5, len(reqs))):
         ctx.sample({"document_class": u["doc"], "request": u["req"], "positions": u["pos"], "classes": sorted(u["classes"])})
     ctx.note("null_results", nulls)
-    ctx.cov["exhaustive"] = not ctx.quick
+    ctx.cov["exhaustive"] = not sampled
     ctx.rule("distinct (document, request, concrete positions) triples from the TLC-enumerated matrix 6 document classes x "
              "8 position classes (pairs for ranges) x 16 requests; non-trivial = non-empty document")
     ctx.assume("the six fixed small documents stand for their classes; token tables come from a regex tokenizer in the "
